@@ -1,6 +1,6 @@
 """C18 -- run-static reports a consistent static EoS and elasticity table in every mode.
 
-Model (spec/StaticCli.tla): every invocation (mode x table x system x cell mass x ntv: 60 states) with the columns, row
+Model (spec/StaticCli.tla): every invocation (mode x table x system x cell mass x ntv x sampling stride) with the columns, row
 rule and units it must print.  Binding (R+T): the command is run through click on in-class synthetic inputs (energies and
 moduli exactly quadratic in Eulerian strain, so the second-order fit is exact); printed rows are parsed; F, P, density and the
 moduli are compared with the analytic model, P with finite differences of F across rows, pressure-mode rows with the
@@ -94,15 +94,19 @@ def main(ctx, replay=None):
     if len(table) < 50:
         raise MachineryError("StaticCli enumeration too small")
     exports = fillspec.cached_exports(ctx)
-    ctx.cov["rule"] = ("every invocation class enumerated by TLC (mode x table x system x cell mass x ntv) on in-class synthetic inputs; "
-                       "a case is one invocation; non-trivial = with static table or interpolating mode; quick: 24 invocations, thorough: all")
+    ctx.cov["rule"] = ("every invocation class enumerated by TLC (mode x table x system x cell mass x ntv x sampling stride) on in-class synthetic inputs; "
+                       "a case is one invocation; non-trivial = with static table or interpolating mode; quick: 36 invocations, thorough: all")
     ctx.assumptions += ["P is compared with the analytic derivative to 2e-3 (the command differentiates numerically on ntv points)",
                         "pandas prints six significant digits"]
-    picks = table if ctx.tier == "thorough" else [table[int(i)] for i in rng.permutation(len(table))[:24]]
+    picks = table if ctx.tier == "thorough" else [table[int(i)] for i in rng.permutation(len(table))[:30]]
+    if ctx.tier != "thorough":
+        sampled = [t for t in table if t[1] == "pressure" and t[8] in (3, 7)]
+        picks += [sampled[int(i)] for i in rng.permutation(len(sampled))[:6]]
     tmp = Path(tempfile.mkdtemp(prefix="cijverif.c18."))
     records = []
+    nsamp = 0
     try:
-        for _, mode, has_table, with_sys, with_mass, ntv, has_density, rowrule in picks:
+        for _, mode, has_table, with_sys, with_mass, ntv, has_density, rowrule, sample, stride, nrows_spec in picks:
             system = str(rng.choice(["hexagonal", "cubic", "tetragonal6", "orthorhombic", "trigonal6"])) if with_sys else None
             sc = StaticCase(rng, exports, system)
             d = Path(tempfile.mkdtemp(dir=tmp))
@@ -125,8 +129,20 @@ def main(ctx, replay=None):
                 pmax_ok = float(sc.pressure(sc.vol[-1]) * G) * 0.8
                 pmin = round(float(rng.uniform(0.0, 5.0)), 3)
                 dp = round((pmax_ok - pmin) / (ntv - 1), 4)
+                if sample > 1:
+                    # make the floating-point quotient delta_p_sample / delta_p fall below the integer in every other case
+                    nsamp += 1
+                    want_below = bool(nsamp % 2 == 0)
+                    for k in range(40):
+                        cand = round(dp - k * 1e-4, 4)
+                        if cand > 0 and ((round(sample * cand, 6) / cand < sample) == want_below):
+                            dp = cand
+                            break
                 args += ["--p-min", repr(pmin), "--delta-p", repr(dp)]
-            case = {"mode": mode, "table": has_table, "system": system, "cellmass": with_mass, "ntv": ntv}
+            if sample > 0:
+                # as a user types it: a decimal number that is `sample` times delta_p (the floating-point quotient may fall on either side)
+                args += ["--delta-p-sample", repr(round(sample * (dp if mode == "pressure" else 1.0), 6))]
+            case = {"mode": mode, "table": has_table, "system": system, "cellmass": with_mass, "ntv": ntv, "sample": sample}
             ctx.count(case, nontrivial=has_table or mode != "none")
             sig = {"mode": mode, "table": has_table}
             r = CliRunner().invoke(static_main, args)
@@ -143,7 +159,7 @@ def main(ctx, replay=None):
                 missing += [c for c in ("bm_V", "bm_R", "bm_VRH", "G_V", "G_R", "G_VRH", "v_p", "v_s", "v_phi") if c not in col]
                 expect_keys = sc.nonvan if with_sys else supplied
                 missing += ["c%d%d" % k for k in expect_keys if "c%d%d" % k not in col]
-            nrows = sc.nv if rowrule == "input_volumes" else ntv
+            nrows = sc.nv if rowrule == "input_volumes" else nrows_spec
             if missing or rows.shape[0] != nrows:
                 ctx.violation(f"run-static ({case}): columns {missing} missing or {rows.shape[0]} rows instead of {nrows}", {**case, "columns": cols}, {**sig, "clause": "columns"})
                 continue
@@ -153,8 +169,8 @@ def main(ctx, replay=None):
                 bad = "rows are not at the input volumes"
             if mode == "volume" and not numpy.allclose(V, numpy.linspace(sc.vol.min() / 1.2, sc.vol.max() * 1.2, ntv), rtol=2e-6):
                 bad = "rows are not the ntv equally spaced volumes"
-            if mode == "pressure" and not numpy.allclose(col["P"], pmin + dp * numpy.arange(ntv), rtol=2e-6, atol=1e-6):
-                bad = f"rows do not sit at the requested pressures (first {col['P'][:3].tolist()}, requested {[pmin, pmin + dp]})"
+            if mode == "pressure" and not numpy.allclose(col["P"], pmin + dp * stride * numpy.arange(nrows), rtol=2e-6, atol=1e-6):
+                bad = f"rows do not sit at the requested pressures (first {col['P'][:3].tolist()}, requested {[pmin, pmin + dp * stride]})"
             Fexp = sc.energy(V) * consts.RY_TO_EV
             # in pressure mode V and F are four-point interpolated from the ntv-point volume grid: accuracy ~ (1/ntv)^3 of the range
             fatol = 1e-6 + (float(numpy.ptp(Fexp)) * 20.0 / ntv ** 3 if mode == "pressure" else 0.0)
